@@ -59,11 +59,12 @@ def mobility(q, so, f=F, k=F):
             + RHO["rho_w0"] * (k("krw", so) / (f("mu_w", q) * f("Bw", q))))
 
 
-def synth_tables(rv=0.0, n=40, const=False):
-    """synthetic PVT with 1/B linear in pressure (known analytic storage slope) for replays"""
+def synth_tables(rv=0.0, n=40, const=False, stiff=1.0):
+    """synthetic PVT with 1/B linear in pressure (known analytic storage slope) for replays; stiff < 1 scales every
+    pressure slope (nearly incompressible fluids: storage per psi far below 1e-6)"""
     import numpy as np
     P = np.linspace(500.0, 8000.0, n)
-    z = np.zeros_like(P) if const else P
+    z = np.zeros_like(P) if const else P * stiff
     pv = {"pressure": P, "Bo": 1 / (0.7 + 2e-5 * z), "Bg": 1 / (0.2 + 4e-4 * z), "Bw": 1 / (0.98 + 1e-6 * z), "Rs": 0.1 + 2e-4 * z, "Rv": rv * (1 + 1e-4 * z),
           "mu_o": 1.2 - 5e-5 * z, "mu_g": 0.02 + 1e-6 * z, "mu_w": 0.5 + 0 * z, "So": np.linspace(0.4, 0.8, n)}
     pv["pseudopressure"] = P.copy()
@@ -175,10 +176,17 @@ def build(ctx):
         return o.value, l.value / c.value, None, o, l, c
 
     def quot_real(pt):
-        pv = synth_tables(0.02)
-        fn = dict(real_pvt_funcs(pv), **RHO_REAL)
         kr = {"kro": lambda s: s**2, "krg": lambda s: (1 - s) ** 1.5 * 0.8, "krw": lambda s: 0.05 + 0 * s}
-        return real(AM)(3000.0, 0.6, 0.1, 0.1, fn, kr), real(LC)(3000.0, 0.6, fn, kr) / real(CC)(3000.0, 0.6, 0.1, 0.1, fn)
+        g = lambda k_, d_: float(pt[k_]) if isinstance(pt.get(k_), (int, float)) else d_
+        p_, so_, ph_, sw_ = g("p", 3000.0), g("So", 0.6), g("phi", 0.1), g("Sw", 0.1)
+        so_ = min(so_, 1.0 - sw_)
+        pair = None
+        for stiff in (1.0, 1e-3):  # ordinary and nearly incompressible fluids (storage per psi ~1e-8)
+            fn = dict(real_pvt_funcs(synth_tables(0.02, stiff=stiff)), **RHO_REAL)
+            pair = (real(AM)(p_, so_, ph_, sw_, fn, kr), real(LC)(p_, so_, fn, kr) / real(CC)(p_, so_, ph_, sw_, fn))
+            if not close(pair[0], pair[1], 1e-12):
+                return pair
+        return pair
 
     obs.append(cas_ob(ctx, "alpha.quotient", "alpha_multiphase == lambda_combined_func / compressibility_combined_func", quotient, BOX, [AM, LC, CC], quot_real, tol=1e-12))
 
@@ -207,11 +215,11 @@ def build(ctx):
         import pandas as pd
         from scipy.interpolate import interp1d
         Fp = real(FP + "FlowPropertiesTwoPhase")
-        for rv in (0.02, 0.0):
-            pv = synth_tables(rv, n=60)
+        for rv, PHI, stiff in ((0.02, 0.1, 1.0), (0.0, 0.1, 1.0), (0.02, 0.01, 1.0), (0.0, 0.35, 1.0), (0.02, 0.05, 1e-3)):
+            pv = synth_tables(rv, n=60, stiff=stiff)
             kr_t = {"So": np.linspace(0, 1, 30)}
             kr_t.update({"Sg": 1 - kr_t["So"], "Sw": 0 * kr_t["So"], "kro": kr_t["So"] ** 2, "krg": 0.8 * (1 - kr_t["So"]) ** 1.5, "krw": 0.05 + 0 * kr_t["So"]})
-            fp = Fp.from_table(pd.DataFrame(pv), pd.DataFrame(kr_t), RHO_REAL, 0.1, 0.1, 6000.0)
+            fp = Fp.from_table(pd.DataFrame(pv), pd.DataFrame(kr_t), RHO_REAL, PHI, 0.1, 6000.0)
             got = np.asarray(fp.pvt_props["alpha"], dtype=float)
             fn = {k: interp1d(pv["pressure"], pv[k], fill_value="extrapolate") for k in PROPS}
             krf = {k: interp1d(kr_t["So"], kr_t[k]) for k in ("kro", "krg", "krw")}
@@ -220,13 +228,13 @@ def build(ctx):
                 f = lambda k, q: float(fn[k](q))
                 lamv = (RHO_REAL["rho_o0"] * (f("Rv", pj) * krf["krg"](so) / (f("mu_g", pj) * f("Bg", pj)) + krf["kro"](so) / (f("mu_o", pj) * f("Bo", pj)))
                         + RHO_REAL["rho_g0"] * (f("Rs", pj) * krf["kro"](so) / (f("mu_o", pj) * f("Bo", pj)) + krf["krg"](so) / (f("mu_g", pj) * f("Bg", pj))) + RHO_REAL["rho_w0"] * krf["krw"](so) / (f("mu_w", pj) * f("Bw", pj)))
-                sfun = lambda q: 0.1 * (RHO_REAL["rho_o0"] * (f("Rv", q) * (0.9 - so) / f("Bg", q) + so / f("Bo", q)) + RHO_REAL["rho_g0"] * (f("Rs", q) * so / f("Bo", q) + (0.9 - so) / f("Bg", q)) + RHO_REAL["rho_w0"] * 0.1 / f("Bw", q))
+                sfun = lambda q: PHI * (RHO_REAL["rho_o0"] * (f("Rv", q) * (0.9 - so) / f("Bg", q) + so / f("Bo", q)) + RHO_REAL["rho_g0"] * (f("Rs", q) * so / f("Bo", q) + (0.9 - so) / f("Bg", q)) + RHO_REAL["rho_w0"] * 0.1 / f("Bw", q))
                 want.append(lamv / (sfun(pj + 0.5) - sfun(pj - 0.5)))
             want = np.array(want)
             bad = ~np.isclose(got, want, rtol=1e-6)
             if bad.any():
                 k = int(np.argmax(bad))
-                return {"reproduced": True, "input": {"table": "synthetic linear 1/B", "Rv": rv, "row": k, "pressure": float(pv["pressure"][k])}, "observed": float(got[k]), "required": float(want[k])}
+                return {"reproduced": True, "input": {"table": "synthetic linear 1/B", "slope_scale": stiff, "Rv": rv, "phi": PHI, "Sw": 0.1, "row": k, "pressure": float(pv["pressure"][k])}, "observed": float(got[k]), "required": float(want[k])}
         return {"reproduced": False}
 
     obs.append(Obligation("from_table.alpha", "FlowPropertiesTwoPhase.from_table: alpha[j] == lambda(p_j, So_j)/c(p_j, So_j) with interpolants of the table columns over pressure that continue linearly outside the table (so end rows are derivatives too)", ft_alpha,
